@@ -597,12 +597,13 @@ def _latin(sem, cells, c):
     names = c[1]
     if len(names) == 1:
         return []
-    ns = {len(F[f].level_names) for f in names}
-    if len(ns) != 1:
-        raise Outside('LatinSquare over factors with different level counts')
+    nf = [len(F[f].level_names) for f in names]
     if any(any(w > 1 for w in F[f].weights) for f in names):
         raise Refused('LatinSquare with weighted levels')
-    N = ns.pop()
+    # [constraints.rst LatinSquare] N is the level count of the factor with the most levels; a factor with fewer
+    # levels cycles through its own levels (a Latin rectangle), and the deterministic order of combinations
+    # steps each non-main factor's offset through its own level count before the next factor's offset moves.
+    N = max(nf)
     s = sustain_of(sem, names[0])
     pre = 0
     for cr in sem.crossings:
@@ -610,7 +611,7 @@ def _latin(sem, cells, c):
             pre = cr['pre_eff'] * s
     if s != 1:
         raise Outside('LatinSquare on sustained factors')
-    main = len(names) - 1
+    main = max(i for i in range(len(names)) if nf[i] == N)
     rot = [0] * len(names)
     out = []
     i = pre
@@ -621,14 +622,14 @@ def _latin(sem, cells, c):
                 mk = cells.cell(names[main], t, k)
                 for idx, f in enumerate(names):
                     if idx != main:
-                        out.append((f'Latin@{t}', z3.Implies(mk, cells.cell(f, t, (k + rot[idx]) % N))))
+                        out.append((f'Latin@{t}', z3.Implies(mk, cells.cell(f, t, (k + rot[idx]) % nf[idx]))))
         for k in range(N):
             out.append((f'Latin:distinct@{i}', z3.PbLe([(cells.cell(names[main], t, k), 1) for t in seg], 1)))
         j = len(names) - 1
         while j >= 0:
             if j != main:
                 rot[j] += 1
-                if rot[j] < N:
+                if rot[j] < nf[j]:
                     break
                 rot[j] = 0
             j -= 1
